@@ -810,12 +810,16 @@ class MatrixATADSolver:
         Returns:
            Relative residual of solution.
         """
-        if b.ndim == 1:
-            D = self.D
-        else:
-            D = self.D[:, snp.newaxis]
         assert isinstance(self.W, Array)
-        return rel_res(self.A.T.conj() @ (self.W[:, snp.newaxis] * self.A) @ x + D * x, b)
+        if self.D.ndim == 1:
+            if b.ndim == 1:
+                D = self.D
+            else:
+                D = self.D[:, snp.newaxis]
+            Dx = D * x
+        else:
+            Dx = self.D @ x
+        return rel_res(self.A.T.conj() @ (self.W[:, snp.newaxis] * self.A) @ x + Dx, b)
 
 
 class ConvATADSolver:
